@@ -57,13 +57,14 @@ type State struct {
 	types  map[string]TypeSet
 	may    map[string]bool // events that happened on some path to here
 	must   map[string]bool // events that happened on every path to here
+	tags   map[string]int  // call site of an inlined helper -> which of its returns was taken (partition key)
 	dead   bool
 	// trail of partition-relevant choices (for reports)
 }
 
 func newState(an *Analysis) *State {
 	return &State{an: an, env: map[ssa.Value]*Expr{}, rng: map[string]ISet{}, facts: map[string]Fact{},
-		mem: map[string]*Expr{}, memE: map[string]*Expr{}, ver: map[string]string{}, fresh: map[string]bool{}, shared: map[string]bool{}, types: map[string]TypeSet{}, may: map[string]bool{}, must: map[string]bool{}}
+		mem: map[string]*Expr{}, memE: map[string]*Expr{}, ver: map[string]string{}, fresh: map[string]bool{}, shared: map[string]bool{}, types: map[string]TypeSet{}, may: map[string]bool{}, must: map[string]bool{}, tags: map[string]int{}}
 }
 
 func (s *State) clone() *State {
@@ -76,6 +77,10 @@ func (s *State) clone() *State {
 	}
 	for k := range s.must {
 		n.must[k] = true
+	}
+	n.tags = make(map[string]int, len(s.tags))
+	for k, v := range s.tags {
+		n.tags[k] = v
 	}
 	for k, v := range s.env {
 		n.env[k] = v
